@@ -139,3 +139,27 @@ package contracts
 //@   ensures trap == 290 && err == 0 ==> r1 >= 3 && r1 < 2147483647 && !old(fdopen)[r1] && fdopen[r1]
 //@   ensures forall x int :: (err != 0 || x != r1) ==> fdopen[x] == old(fdopen[x])
 //@   modifies fdopen
+//@
+//@ extern (*sync.Map).Range
+//@   params m f
+//@   note calls f once per entry (possibly for none); the callbacks netpoll passes are verified separately; captured int counters may change
+//@   modifies world, key:cell:int
+//@ extern (*sync.Map).Store
+//@   params m key value
+//@   modifies nothing
+//@ extern (*sync.Map).Delete
+//@   params m key
+//@   modifies nothing
+//@
+//@ extern context.WithTimeout
+//@   params parent timeout
+//@   results ctx cancel
+//@   ensures ctx != nil && cancel != nil
+//@ extern context.Background
+//@   ensures result != nil
+//@
+//@ iface context.Context.Err
+//@   note netpoll calls Err only after Done() has fired, when it is non-nil by the context package's contract
+//@   ensures result != nil
+//@ iface context.Context.Done
+//@   ensures true
